@@ -146,6 +146,25 @@ where
     /// ```
     pub fn find(&self, prefix: P) -> Option<TrieView<'a, P, T>> {
         let mut idx = self.loc.idx();
+        // The search below assumes that `prefix` lies within the prefix of the node `idx`. Handle
+        // all other cases first.
+        if !self.prefix().contains(&prefix) {
+            // `prefix` is not part of this view. If it covers the entire view, then everything in
+            // this view is contained within `prefix`: return a virtual node at `prefix` above the
+            // root of this view. Otherwise, nothing in this view is contained in `prefix`.
+            return prefix.contains(self.prefix()).then_some(Self {
+                table: self.table,
+                loc: ViewLoc::Virtual(prefix, idx),
+            });
+        }
+        if matches!(self.loc, ViewLoc::Virtual(_, _)) && !self.table[idx].prefix.contains(&prefix) {
+            // `self` is a virtual node, and `prefix` lies between that virtual node and the first
+            // real node `idx` (or in a different branch).
+            return prefix.contains(&self.table[idx].prefix).then_some(Self {
+                table: self.table,
+                loc: ViewLoc::Virtual(prefix, idx),
+            });
+        }
         loop {
             match self.table.get_direction_for_insert(idx, &prefix) {
                 DirectionForInsert::Enter { next, .. } => {
@@ -262,7 +281,8 @@ where
         let mut idx = self.loc.idx();
         let mut best_match = None;
         loop {
-            if self.table[idx].value.is_some() {
+            // the root of the view (or the node below a virtual root) may not cover `prefix`.
+            if self.table[idx].value.is_some() && self.table[idx].prefix.contains(prefix) {
                 best_match = Some(idx);
             }
             match self.table.get_direction(idx, prefix) {
@@ -694,6 +714,27 @@ where
         // is still not covered by any other view), while dropping `self`.
 
         let mut idx = self.loc.idx();
+        // The search below assumes that `prefix` lies within the prefix of the node `idx`. Handle
+        // all other cases first.
+        if !self.prefix().contains(&prefix) {
+            // `prefix` is not part of this view. If it covers the entire view, then everything in
+            // this view is contained within `prefix`: return a virtual node at `prefix` above the
+            // root of this view. Otherwise, nothing in this view is contained in `prefix`.
+            return if prefix.contains(self.prefix()) {
+                unsafe { Ok(Self::new(self.table, ViewLoc::Virtual(prefix, idx))) }
+            } else {
+                Err(self)
+            };
+        }
+        if matches!(self.loc, ViewLoc::Virtual(_, _)) && !self.table[idx].prefix.contains(&prefix) {
+            // `self` is a virtual node, and `prefix` lies between that virtual node and the first
+            // real node `idx` (or in a different branch).
+            return if prefix.contains(&self.table[idx].prefix) {
+                unsafe { Ok(Self::new(self.table, ViewLoc::Virtual(prefix, idx))) }
+            } else {
+                Err(self)
+            };
+        }
         loop {
             match self.table.get_direction_for_insert(idx, &prefix) {
                 DirectionForInsert::Enter { next, .. } => {
@@ -806,7 +847,8 @@ where
         let mut idx = self.loc.idx();
         let mut best_match = None;
         loop {
-            if self.table[idx].value.is_some() {
+            // the root of the view (or the node below a virtual root) may not cover `prefix`.
+            if self.table[idx].value.is_some() && self.table[idx].prefix.contains(prefix) {
                 best_match = Some(idx);
             }
             match self.table.get_direction(idx, prefix) {
